@@ -22,6 +22,8 @@ tvars == <<l, bad, learned>>
 Accept(e, c) ==
   CASE e.op = "eq" -> /\ PropEq(c, e.a, e.b, e.calls, e.ret)
                       /\ PropNe(c, e.a, e.b, e.ncalls, e.nret)
+    [] e.op \in {"cmp", "partial_cmp"} -> PropCmp(c, e.op, e.a, e.b, e.calls, e.ret)
+    [] e.op = "hashes" -> PropHashAll(c, e.obs, e.eqs)
     [] OTHER -> FALSE
 
 TraceInit == l = 1 /\ bad = <<>> /\ learned = <<>>
